@@ -198,6 +198,9 @@ impl Eval for Cmp {
 
 fn cmp_dispatch<Cmp: Fn(&Value, &Value) -> bool>(cmp: &Cmp, lhs: &Value, rhs: &Value) -> bool {
     match lhs {
+        // A comparison only holds for a tag that has a value
+        Value::Null => false,
+
         Value::List(list) => {
             if !rhs.is_list() {
                 list.iter().any(|el| cmp_dispatch(cmp, el, rhs))
